@@ -111,7 +111,9 @@ CHECKS = {
             'For WithinTrial, Transition and Window(start 0/1, ElseLevel) factors in three roles (crossed, constrained, '
             'implied) CrossHair confirms over all tables: overlap <=> ValueError at construction, non-coverage <=> fatal '
             'error entry; all 256 WithinTrial table pairs are synthesised concretely ([] iff uncovered, right level per '
-            'trial). Level placement for every model is R rule 3 in C01/C02.',
+            'trial); for every corpus design with a derived factor, 3 sequences from the real IterateSATGen and RandomGen must '
+            'carry the accepting level at every applicable trial and nothing elsewhere (also factors without variables that are '
+            'filled in afterwards, early-start windows, strides, weighted sources). Level placement for every model is R rule 3 in C01/C02.',
             'Two-level factors over 2-level sources; CrossHair/z3 trusted.', '6 C15'),
     'C16': (OT, 'A+B', 'CrossHair symbolic execution of the real constructors with MinimumTrials n, level weight w and window '
                        'start symbolic against closed-form documented arithmetic; corpus comparison with the reference rule 1; '
@@ -131,8 +133,8 @@ CHECKS = {
     'C19': (OT, 'A', 'bounded exhaustive enumeration of call histories on real blocks; after each call object identity and the '
                      'recompiled clause list are compared (solver-decided projection equality when they differ syntactically); '
                      'final synthesis judged by the reference validator',
-            'All histories of length <=2 (plus 150 seeded / all of length 3) over 10 operations on 7 blocks (incl. a '
-            'continuous factor, a constrained weighted factor, a partial LatinSquare, Repeat, Nest): the block\'s design, '
+            'All histories of length <=2 (plus 150 seeded / all of length 3) over 10 operations on 8 blocks (incl. continuous '
+            'factors computed from a discrete one, a design listing a derived factor first, a constrained weighted factor, a partial LatinSquare, Repeat, Nest): the block\'s design, '
             'crossings, constraints and compiled formula are unchanged after every call, and a final synthesize_trials '
             'returns the requested number of valid sequences with the same columns.',
             'The quantifier over histories is enumeration; the formula comparison falls back to a solver query only when '
@@ -141,17 +143,18 @@ CHECKS = {
                        'and symbolic shape; CSV through an in-memory open() read back with the csv module; key sets of real sequences',
             'experiments_to_tuples/dicts are confirmed over all paths to reproduce every value in design order for plain, '
             'weight-desugared and continuous-factor blocks; save_experiments_csv round-trips a 7-value alphabet per cell; '
-            'every corpus design returns exactly the user-declared columns.',
+            'every corpus design, and every operand block of a Repeat/Merge/Nest after it was combined, returns exactly the '
+            'user-declared columns and converts to the same tuples/dicts; a weighted uncrossed factor together with a continuous factor through three strategies.',
             'Bounded to 1-2 experiments, 1-3 trials; CSV 1-2 trials.', '6 C20'),
     'C21': (OT, 'B', 'CrossHair symbolic execution of the real tabulate_experiments with symbolic level per cell and symbolic '
                      'trial selection; independent parser of the captured stdout',
-            'For each shape (incl. colliding multi-word level names, the empty level, two experiments) every assignment of '
+            'For each shape (incl. colliding multi-word level names, the empty level, two experiments, experiment columns in the opposite order from the selected factors) every assignment of '
             'levels to cells and every trial selection is explored; each printed row must carry the exact count and '
             'percentage string and every combination must appear exactly once.',
             'Bounded to <=3 trials/factors, 2 experiments; stdout captured.', '6 C21'),
     'C22': (OT, 'B', 'CrossHair symbolic execution of the real continuous sampling loop with distributions stubbed by symbolic draws',
             'block.sample_continuous is driven with symbolic integer draws and a symbolic window start: the result is the '
-            'accepted attempt, the ContinuousConstraint holds at every trial, derived and window factors see the same '
+            'accepted attempt, both ContinuousConstraints over the same factor hold at every trial, derived and window factors see the same '
             'trial / the preceding outputs with NaN exactly where undefined, cumulative distributions restart per attempt.',
             'Integers stand for sampled reals (no float arithmetic in the library); at most 2 resampling attempts.', '6 C22'),
     'C17': (OT, 'A', 'solver-GENERATED testing of the real mismatch checker: z3 models of the reference (valid), z3 models '
